@@ -87,7 +87,7 @@ def make_raw(ctx, kind, tag='v'):
     if kind in ('str', 'str_int', 'str_float', 'str_bool', 'abs_path', 'rel_path'):
         t = ctx.string(tag + '.' + kind)
         ctx.assume(z3.Length(t) <= 6)
-        chars = z3.Union(z3.Range('0', '9'), z3.Range('a', 'f'), z3.Re('T'), z3.Re('r'), z3.Re('u'), z3.Re('l'), z3.Re('s'), z3.Re('.'), z3.Re('-'), z3.Re('+'),
+        chars = z3.Union(z3.Range('0', '9'), z3.Range('a', 'z'), z3.Range('A', 'Z'), z3.Re('.'), z3.Re('-'), z3.Re('+'),
                          z3.Re(' '), z3.Re('_'), z3.Re('/'), z3.Re('"'), z3.Re('\\'))
         ctx.assume(z3.InRe(t, z3.Star(chars)))
         symx._number_grammars()
@@ -486,6 +486,25 @@ def concrete_run(rec):
         oc1, out1 = call_clean(param, raw, program, E)
         oc2, out2 = call_clean(param, raw, program, E)
         facts = {'outcome': oc1, 'escaped': oc1.startswith('escaped'), 'pure': (raw == before) if not hasattr(raw, 'result_name') else True, 'repeat': oc1 == oc2}
+        exp = expected_outcome(rec['param'], rec.get('raw_kind'), rec['wd'])
+        facts['documented_outcome'] = True if exp is None else ((oc1 == 'ok') if exp else oc1.startswith('param-error'))
+        facts['documented_value'] = True
+        if oc1 == 'ok':
+            k = rec.get('raw_kind')
+            if rec['param'] == 'Boolean' and k == 'str_bool':
+                facts['documented_value'] = out1 is (raw.lower() == 'true')
+            elif rec['param'] == 'Boolean' and k in ('int', 'bool'):
+                facts['documented_value'] = out1 is bool(raw)
+            elif rec['param'] == 'Boolean' and k == 'str_int':
+                facts['documented_value'] = out1 is bool(int(raw))
+            elif rec['param'] == 'Number' and k in ('int', 'float'):
+                facts['documented_value'] = out1 == raw and type(out1) is type(raw)
+            elif rec['param'] in ('String',) and isinstance(raw, str):
+                facts['documented_value'] = out1 == raw
+            elif rec['param'] == 'Path' and k == 'abs_path':
+                facts['documented_value'] = out1 == raw
+            elif rec['param'] == 'Path' and k == 'rel_path':
+                facts['documented_value'] = out1 == WD + '/' + raw
         if oc1 == 'ok' and oc2 == 'ok':
             facts['repeat'] = facts['repeat'] and (out1 == out2 or out1 is out2)
             if not rec['param'].startswith('Path') or rec['wd']:
@@ -513,7 +532,7 @@ def path_check(rec, oc):
 
 def confirm(rec, label):
     f = concrete_run(rec)
-    bad = f['escaped'] or not f['pure'] or not f['repeat'] or (f.get('idem') is False)
+    bad = f['escaped'] or not f['pure'] or not f['repeat'] or (f.get('idem') is False) or not f['documented_outcome'] or not f['documented_value']
     return bad, 'concrete run on %s with %s: %s' % (rec['param'], rec['raw'], f)
 
 
